@@ -226,6 +226,8 @@ from . import shared
 RULES = RULES + shared.bundle('C19', [], ['sesans', 'direct_model'])
 from . import folds as _folds
 RULES = RULES + [_folds.fold_rule('C19')]
+from .. import refs as _refs
+RULES = RULES + [_refs.ref_rule('C19')]
 
 
 def run(tier="quick", replay=None):
